@@ -293,6 +293,10 @@ def cases_driver_and_flags(tier):
     for cid, c in C03.cases_flags(tier):
         if c["what"] == "propagate":
             yield "flags/" + cid, dict(c, __which__="flags")
+    # the realizations that count for an estimator are those left after the perturbation failures, in a combined request too
+    for cid, c in C03.cases_pertfail(tier):
+        if c.get("est") == "stddev" or (tier == "quick" and c["pms"] == 2 and not c["merge"]) or tier == "thorough":
+            yield "perturbation-failures/" + cid, dict(c, __which__="pertfail")
 
 
 def scn_driver_and_flags(T, case):
@@ -303,7 +307,9 @@ def scn_driver_and_flags(T, case):
     from contracts import C03
     from contracts.reuse import Renamed
 
-    if case["__which__"] == "run":
+    if case["__which__"] == "pertfail":
+        C03.scn_pertfail(Renamed(T, "C03.", "C14.too_few."), case)
+    elif case["__which__"] == "run":
         C03.scn_run(Renamed(T, "C03.", "C14.too_few."), case)
     else:
         C03.scn_flags(Renamed(T, "C03.", "C14.too_few."), case)
